@@ -556,6 +556,10 @@ class SmpCtx:
         if isinstance(e, ast.BoolOp):
             op = " || " if isinstance(e.op, ast.Or) else " && "
             return "(" + op.join(self.b(v) for v in e.values) + ")"
+        if isinstance(e, ast.Compare) and len(e.ops) == 1 and isinstance(e.ops[0], ast.In) and isinstance(e.comparators[0], (ast.Tuple, ast.List)):
+            # k in (a, b): membership in a literal tuple is the disjunction of the equalities, in order
+            lz = self.z(e.left)
+            return "(" + " || ".join("(%s =? %s)%%Z" % (lz, self.z(x)) for x in e.comparators[0].elts) + ")"
         if isinstance(e, ast.Compare) and len(e.ops) == 1:
             l, r, op = e.left, e.comparators[0], e.ops[0]
             # nat comparison when both sides are nat-typed (i < numel - 1), Z otherwise
@@ -934,8 +938,11 @@ def translate_layout(stage_tree, smp_tree):
             else:
                 _fail(e, "Stage.%s: term of the concatenation" % prop)
         walk(st[0].value)
-        ret = [s_ for s_ in fn.body if isinstance(s_, ast.Return)]
-        if len(ret) != 1 or ast.unparse(ret[0].value) != "MX(0, 1) if len(arg) == 0 else vvcat(arg)":
+        tail = "\n".join(ast.unparse(s_) for s_ in fn.body if not (isinstance(s_, ast.Assign) and ast.unparse(s_.targets[0]) == "arg")
+                         and not (isinstance(s_, ast.Expr) and isinstance(s_.value, ast.Constant)))
+        if tail not in ("return MX(0, 1) if len(arg) == 0 else vvcat(arg)",
+                        "if len(arg) == 0:\n    return MX(0, 1)\nreturn vvcat(arg)",
+                        "if len(arg) == 0:\n    return MX(0, 1)\nelse:\n    return vvcat(arg)"):
             _fail(fn, "Stage.%s: return" % prop)
         return out
     sym = [("P", k) for k in kinds_of("p", "parameters")] + [("V", k) for k in kinds_of("v", "variables")]
